@@ -39,9 +39,11 @@ def run(ctx):
     for cfg in cfgs:
         fs = ctx.facts(cfg)
         ctx.guard(name_first, ctx, cfg, fs)
+        ctx.guard(first_name_only, ctx, cfg, fs)
         ctx.guard(matched, ctx, cfg, fs)
         ctx.guard(keep_only, ctx, lambda: c07.table(ctx, cfg, fs), lambda o: 'depth=Less' in o.key or 'depth=Greater' in o.key, 'D.depth')
         ctx.guard(keep_only, ctx, lambda: c10.final(ctx, cfg, fs), lambda o: True, 'F.final')
+        ctx.guard(keep_only, ctx, lambda: c07.fork(ctx, cfg, fs), lambda o: 'ParseOrElse' in o.key, 'D.depth')
         ctx.guard(keep_only, ctx, lambda: c10.returns(ctx, cfg, fs), lambda o: o.rule == 'P.payload', 'L.own-level')
         import c12
         ctx.guard(keep_only, ctx, lambda: c12.walker_rules(ctx, cfg, fs, 'G.registry', {'collect_shorts': c12.WALKERS['collect_shorts']}), lambda o: True, 'G.registry')
@@ -111,6 +113,36 @@ def name_test(fs, b):
                             recv.add('.'.join(q.path))
         return {'matched_entries': [d.target(True)], 'unmatched_entry': d.target(False), 'tried': recv, 'sites': len(own_tk)}
     raise Broken('ParseCommand::eval: name matching not found')
+
+def first_name_only(ctx, cfg, fs, rule='N.name-first'):
+    """the command name is consumed ONCE: as soon as one spelling matched (take_cmd returned true) no other spelling is
+    tried - a second take_cmd would compare the NEXT item with the remaining aliases and swallow it (`remove rm`, where
+    `rm` is an alias and also the first positional)"""
+    b = ctx.look(fs.one(r'^<params::ParseCommand<T> as Parser<T>>::eval$'))
+    clos = {clo.path for clo in fs.closures_of(b) if any(x.is_(r'take_cmd$') for x in clo.calls())}
+    anyc = [c for c in b.calls() if c.is_(r'Iterator>?::(any|find|position|all|for_each|filter|map|fold)\b') and len(c.args) > 1 and
+            any(r.kind == 'agg' and r.extra.get('closure') in clos for r in provenance(b, c.args[1], c.bb, 'term', through=None))]
+    own = [c for c in b.calls() if c.is_(r'take_cmd$')]
+    tests = anyc + own
+    why = []
+    fr = flag_regions(b, own, full=True) if own else None
+    removed = [(s_.b, s_.target(False)) for s_ in fr[2]] if fr else []
+    for t in tests:
+        if t in anyc and not t.is_(r'Iterator>?::any\b'):
+            why.append('%s is used to try the names: every name is tried' % t.name.split('::')[-1]); continue
+        sw = switch_on_call(b, t)
+        if sw is None or sw.kind != 'bool':
+            why.append('the outcome of %s at %s does not decide whether more names are tried' % (t.name.split('::')[-1], b.where(t.bb))); continue
+        # once the flag recording the success is set, tests of that flag can only go the `true` way
+        again = [u for u in tests if u.bb in reachable_edges(b, sw.target(True), removed_edges=removed)]
+        if again:
+            why.append('after %s succeeded at %s, %s can run again' % (t.name.split('::')[-1], b.where(t.bb), sorted({u.name.split('::')[-1] for u in again})))
+        # a later test is entered only through the failure of this one (`a || b`, not `let x = a; let y = b;`)
+        for u in tests:
+            if u is not t and b.dominates(t.bb, u.bb) and not only_via_edge(b, sw.b, sw.target(False), u.bb):
+                why.append('%s at %s runs whether or not the earlier name test succeeded' % (u.name.split('::')[-1], b.where(u.bb)))
+    ctx.ob(rule, 'ParseCommand::eval:stops-at-first-name', bool(tests) and not why,
+           'ParseCommand::eval stops trying names at the first take_cmd that succeeds (%d name test(s)): %s' % (len(tests), '; '.join(why) or 'ok'), where=b.where(), cfg=cfg)
 
 def matched(ctx, cfg, fs):
     b = ctx.look(fs.one(r'^<params::ParseCommand<T> as Parser<T>>::eval$'))
